@@ -539,6 +539,15 @@ vfs_dump_journal(const vfs_t *v, FILE *f, int from, int to) {
 /* fault injection and call log                                       */
 /* ------------------------------------------------------------------ */
 
+static const char *
+ino_path(const vfs_t *v, int ino) {
+  int i;
+  for (i = 0; i < v->nnames; i++)
+    if (v->names[i].ino == ino)
+      return v->names[i].path;
+  return NULL;
+}
+
 /* returns 0 = proceed normally, 1 = fail with errno set, 2 = short transfer
  * of *short_n bytes */
 static int
@@ -580,6 +589,8 @@ fault_check(vfs_t *v, int kind, const char *name, size_t len, long *short_n) {
   if (!fire)
     return 0;
   f->fired++;
+  if (getenv("VH_DEBUG_FAULT_ABORT"))
+    abort();
   if (f->short_n >= 0 && (kind == C_WRITE || kind == C_READ) && idx == f->at) {
     long n = f->short_n;
     if ((size_t)n >= len)
@@ -678,7 +689,7 @@ close(int fd) {
     return (int)syscall(SYS_close, fd);
   if (!f) { errno = EBADF; return -1; }
   sch_io_point(NULL);
-  if (fault_check(v, C_CLOSE, NULL, 0, &sn) == 1)
+  if (fault_check(v, C_CLOSE, ino_path(v, f->ino), 0, &sn) == 1)
     r = -1;
   n = v->inodes[f->ino];
   n->opens--;
@@ -700,7 +711,7 @@ read(int fd, void *buf, size_t count) {
   if (fd < VFS_FD_BASE)
     return syscall(SYS_read, fd, buf, count);
   if (!f) { errno = EBADF; return -1; }
-  fc = fault_check(v, C_READ, NULL, count, &sn);
+  fc = fault_check(v, C_READ, ino_path(v, f->ino), count, &sn);
   if (fc == 1)
     return -1;
   n = v->inodes[f->ino];
@@ -730,7 +741,7 @@ write(int fd, const void *buf, size_t count) {
   if ((f->flags & O_ACCMODE) == O_RDONLY) { errno = EBADF; return -1; }
   sch_io_point(NULL);
   n = v->inodes[f->ino];
-  fc = fault_check(v, C_WRITE, NULL, count, &sn);
+  fc = fault_check(v, C_WRITE, ino_path(v, f->ino), count, &sn);
   if (fc == 1)
     return -1;
   if (fc == 2)
@@ -764,7 +775,7 @@ lseek(int fd, off_t off, int whence) {
   if (fd < VFS_FD_BASE)
     return (off_t)syscall(SYS_lseek, fd, off, whence);
   if (!f) { errno = EBADF; return -1; }
-  if (fault_check(v, C_LSEEK, NULL, 0, &sn) == 1)
+  if (fault_check(v, C_LSEEK, ino_path(v, f->ino), 0, &sn) == 1)
     return -1;
   switch (whence) {
     case SEEK_SET: nv = off; break;
@@ -785,7 +796,7 @@ do_fsync(int fd) {
   long sn;
   if (!f) { errno = EBADF; return -1; }
   sch_io_point(NULL);
-  if (fault_check(v, C_FSYNC, NULL, 0, &sn) == 1)
+  if (fault_check(v, C_FSYNC, ino_path(v, f->ino), 0, &sn) == 1)
     return -1;
   n = v->inodes[f->ino];
   if (n->is_dir) {
@@ -1103,7 +1114,7 @@ mmap(void *addr, size_t len, int prot, int flags, int fd, off_t off) {
     return (void *)syscall(SYS_mmap, addr, len, prot, flags, fd, off);
   f = getfd(fd);
   if (!f) { errno = EBADF; return MAP_FAILED; }
-  if (fault_check(v, C_MMAP, NULL, len, &sn) == 1)
+  if (fault_check(v, C_MMAP, ino_path(v, f->ino), len, &sn) == 1)
     return MAP_FAILED;
   if (len == 0) { errno = EINVAL; return MAP_FAILED; }
   n = v->inodes[f->ino];
